@@ -26,16 +26,26 @@ for c in checks:
     for d in det[:4]:
         print("   ", d[:260])
 subprocess.run(["git", "-C", wt, "checkout", "-q", "--", "."], check=True)
-dst = os.path.join(V, "seeded", pid if not os.path.exists(os.path.join(V, "seeded", pid, "patch.diff")) else pid + "-b")
+recheck = os.path.abspath(src).startswith(os.path.join(V, "seeded") + os.sep)
+if recheck:
+    dst = os.path.abspath(src)          # re-run of a stored change: update its meta in place
+else:
+    dst = os.path.join(V, "seeded", pid)
+    k = 0
+    while os.path.exists(os.path.join(dst, "patch.diff")):
+        k += 1
+        dst = os.path.join(V, "seeded", pid + "-" + "bcdefgh"[k - 1])
 os.makedirs(dst, exist_ok=True)
-for f in os.listdir(src):
+for f in ([] if recheck else os.listdir(src)):
     fp = os.path.join(src, f)
     if os.path.isfile(fp) and os.path.getsize(fp) < 400000 and not f.endswith((".a", ".o")):
         shutil.copy(fp, dst)
 meta = json.load(open(os.path.join(dst, "meta.json")))
 meta["breaks_property"] = pid
+meta.setdefault("history_of_runs", []).append(meta.get("checks_run_against_it")) if recheck and meta.get("checks_run_against_it") else None
 meta["checks_run_against_it"] = results
 meta["caught"] = any(v["exit"] == 1 for v in results.values())
+meta["concrete_input_found"] = any(v["exit"] == 1 and any("no-failing-input-found" not in x for x in v["violations"]) for v in results.values())
 meta["verified_by_integrator"] = "patch applied to a scratch worktree of /repo HEAD %s; checks run with VERIF_REPO; see checks_run_against_it" % head[:8]
 json.dump(meta, open(os.path.join(dst, "meta.json"), "w"), indent=1)
 print("stored in", dst, "caught =", meta["caught"])
